@@ -12,7 +12,7 @@ use crate::scen::{Scenario, Spec};
 use crate::workload;
 
 pub const BASE_IMAGES: u64 = 48;
-pub const HUGE_CASES: u64 = 8;
+pub const HUGE_CASES: u64 = 24;
 
 const EHDR_FIELDS: [&str; 7] = [
     "e_phoff",
@@ -74,10 +74,11 @@ fn lookup(tbl: &[(&'static str, usize, usize)], name: &str) -> (usize, usize) {
 }
 
 fn huge_image(rng: &mut Rng, k: u64) -> (Vec<u8>, J) {
+    // over 12 consecutive k every (class, order, shstrndx variant) combination occurs
     let c64 = k % 2 == 0;
     let be = (k / 2) % 2 == 0;
-    let nsec: usize = if k % 4 < 2 { 0xff00 + rng.urange(0, 0x40) } else { 3 };
-    let nph: usize = if k % 4 >= 1 { 0xffff + rng.urange(0, 0x20) } else { 2 };
+    let nsec: usize = if k % 5 != 4 { 0xff00 + rng.urange(1, 0x40) } else { 3 };
+    let nph: usize = if k % 3 != 2 { 0xffff + rng.urange(0, 0x20) } else { 2 };
     let eh = hdr::ehsize(c64);
     let shent = hdr::shentsize(c64);
     let phent = hdr::phentsize(c64);
@@ -127,7 +128,7 @@ fn huge_image(rng: &mut Rng, k: u64) -> (Vec<u8>, J) {
     }
     // which table names the sections: the last index written directly into e_shstrndx
     // (a reserved-range value when nsec > 0xff00), the SHN_XINDEX escape, or the small one
-    let shstr_variant = (k / 4) % 3;
+    let shstr_variant = k % 3;
     let last = (nsec - 1) as u32;
     let xsh = nsec >= 0xff00;
     let xph = nph >= 0xffff;
